@@ -4,22 +4,90 @@ import (
 	"fmt"
 	"net"
 	"os"
+	"path/filepath"
 	"runtime"
 	"strconv"
 	"strings"
+	"sync"
+	"syscall"
 	"time"
 
 	"verifharness/resp"
 )
 
-// FreePort asks the kernel for a free TCP port on the loopback interface.
+// FreePort returns a TCP port on the loopback interface that no other check process will hand out.
+//
+// Asking the kernel for an ephemeral port and closing it again is not enough when a dozen check processes run
+// side by side: two of them can be given the same port before either has started its server, the second server
+// then fails to listen, and its harness talks to the first process's server (seen once as an ACL table that
+// "changed by itself"). Every process therefore reserves blocks of 250 ports below the ephemeral range with an
+// advisory file lock that it holds until it exits, and cycles through its own blocks.
 func FreePort() int {
+	portMu.Lock()
+	defer portMu.Unlock()
+	for attempt := 0; attempt < 4*portBlockSize; attempt++ {
+		if len(portBlocks) == 0 || portNext >= len(portBlocks)*portBlockSize*3 {
+			// no block yet, or every port of the blocks held was tried three times over: take one more block
+			if b := reservePortBlock(); b >= 0 {
+				portBlocks = append(portBlocks, b)
+			}
+		}
+		if len(portBlocks) == 0 {
+			break
+		}
+		i := portNext % (len(portBlocks) * portBlockSize)
+		portNext++
+		port := portRangeLo + portBlocks[i/portBlockSize]*portBlockSize + i%portBlockSize
+		l, err := net.Listen("tcp", "127.0.0.1:"+strconv.Itoa(port))
+		if err != nil {
+			continue // still held by a server of an earlier case of this process (or by a stranger)
+		}
+		_ = l.Close()
+		return port
+	}
+	// fall back to the kernel's choice
 	l, err := net.Listen("tcp", "127.0.0.1:0")
 	if err != nil {
 		return 0
 	}
 	defer l.Close()
 	return l.Addr().(*net.TCPAddr).Port
+}
+
+const (
+	portRangeLo   = 10000
+	portRangeHi   = 32000
+	portBlockSize = 250
+)
+
+var (
+	portMu     sync.Mutex
+	portBlocks []int
+	portNext   int
+	portLocks  []*os.File // kept open: the locks last as long as the process
+)
+
+func reservePortBlock() int {
+	dir := filepath.Join(os.TempDir(), "verif-port-blocks")
+	if err := os.MkdirAll(dir, 0o777); err != nil {
+		return -1
+	}
+	n := (portRangeHi - portRangeLo) / portBlockSize
+	start := os.Getpid() % n
+	for k := 0; k < n; k++ {
+		b := (start + k) % n
+		f, err := os.OpenFile(filepath.Join(dir, strconv.Itoa(b)), os.O_CREATE|os.O_RDWR, 0o666)
+		if err != nil {
+			continue
+		}
+		if err := syscall.Flock(int(f.Fd()), syscall.LOCK_EX|syscall.LOCK_NB); err != nil {
+			_ = f.Close()
+			continue
+		}
+		portLocks = append(portLocks, f)
+		return b
+	}
+	return -1
 }
 
 // Conn is one TCP client connection speaking RESP.
